@@ -206,6 +206,9 @@ func httpRetryable(code int) bool {
 
 // retryAfterSeconds interprets a Retry-After header value as RFC 9110
 // delay-seconds (1*DIGIT). Anything else carries no delay for this check.
+// maxRetryAfter: larger values are not generated (N seconds still fits a time.Duration).
+const maxRetryAfter = 9_000_000_000
+
 func retryAfterSeconds(v string) (int64, bool) {
 	if v == "" {
 		return 0, false
@@ -216,7 +219,7 @@ func retryAfterSeconds(v string) (int64, bool) {
 		}
 	}
 	n, err := strconv.ParseInt(v, 10, 64)
-	if err != nil || n > 3600 {
+	if err != nil || n > maxRetryAfter {
 		return 0, false
 	}
 	return n, true
